@@ -17,6 +17,58 @@ fn wait_gone(pid: i32, tid: i32) {
 pub fn generate(seed: u64, tier: &str, out: &mut dyn std::io::Write) {
     generate_exits("C04", seed, tier, out);
     generate_busy(seed, tier, out);
+    generate_slow("C04", seed, tier, out);
+}
+
+extern "C" fn noop_handler(_: libc::c_int) {}
+
+/// C: a thread that is slow to stop (the dumper waits for it) while the dumping thread itself receives signals whose
+/// handler was installed without SA_RESTART: every blocking call of the dumper may return EINTR. The thread exists
+/// throughout and can be attached to, so it must be listed, once, and let go afterwards.
+pub fn generate_slow(prop: &str, seed: u64, tier: &str, out: &mut dyn std::io::Write) {
+    let n = if tier == "thorough" { 40 } else { 6 };
+    unsafe {
+        let mut sa: libc::sigaction = std::mem::zeroed();
+        sa.sa_sigaction = noop_handler as usize;
+        sa.sa_flags = 0; // no SA_RESTART
+        libc::sigaction(libc::SIGUSR1, &sa, std::ptr::null_mut());
+    }
+    for i in 0..n {
+        let mut r = Rng::for_case(seed, 406, i);
+        let nblock = r.range(0, 4) as usize;
+        let ms = *r.pick(&[5u64, 20, 60]);
+        let args = vec!["-t".to_string(), nblock.to_string(), "-V".to_string(), ms.to_string()];
+        let t = match Target::spawn(&args) {
+            Ok(t) => t,
+            Err(_) => continue,
+        };
+        let mut cfg = DumpCfg::default();
+        cfg.blamed = t.threads[0].tid;
+        let stop = std::sync::Arc::new(std::sync::atomic::AtomicBool::new(false));
+        let pinger = {
+            let stop = stop.clone();
+            let period = *r.pick(&[200u64, 1000, 3000]);
+            std::thread::spawn(move || {
+                let pid = std::process::id() as i32;
+                while !stop.load(std::sync::atomic::Ordering::SeqCst) {
+                    let tid = DUMPER_TID.load(std::sync::atomic::Ordering::SeqCst);
+                    if tid != 0 {
+                        unsafe { libc::syscall(libc::SYS_tgkill, pid, tid, libc::SIGUSR1) };
+                    }
+                    std::thread::sleep(std::time::Duration::from_micros(period));
+                }
+            })
+        };
+        let mut dest = RecDest::new(vec![], 0);
+        let o = dump_case(prop, &format!("s{}-{}", seed, i), &t, &cfg, &mut dest, &format!("eintr=1 vforkms={}", ms));
+        stop.store(true, std::sync::atomic::Ordering::SeqCst);
+        let _ = pinger.join();
+        let (st, tree) = o.image.as_ref().map(|img| crate::c11::soft_error_field(img)).unwrap_or(("absent".into(), "-".into()));
+        writeln!(out, "{} soft={} tree={}", o.line, st, tree).unwrap();
+    }
+    unsafe {
+        libc::signal(libc::SIGUSR1, libc::SIG_IGN);
+    }
 }
 
 /// A: exits between enumeration and attach (also part of C11: an omitted thread is a reported soft error)
